@@ -88,16 +88,19 @@ def run_case(args):
             res["inconclusive"].append("counting run failed rc=%s M=%d %s" % (rc, M, e2[-300:]))
             break
         # choose kill points
-        if tier == "thorough":
+        interesting = set([1, M])
+        for i, (name, line) in enumerate(calls, 1):
+            if name in ("fdatasync", "fsync", "unlink", "unlinkat", "ftruncate") or ("F_SETLK" in line) or ("journal" in line and name in ("openat", "open")):
+                for j in (i - 1, i, i + 1):
+                    if 1 <= j <= M:
+                        interesting.add(j)
+        if tier == "thorough" and M <= 400:
             points = list(range(1, M + 1))
+        elif tier == "thorough":   # a big program: every transition point plus an even sample of the rest
+            res["exhaustive"] = False
+            points = sorted(interesting | set(range(1, M + 1, max(1, M // 300))))
         else:
             res["exhaustive"] = False
-            interesting = set([1, M])
-            for i, (name, line) in enumerate(calls, 1):
-                if name in ("fdatasync", "fsync", "unlink", "unlinkat", "ftruncate") or ("F_SETLK" in line) or ("journal" in line and name in ("openat", "open")):
-                    for j in (i - 1, i, i + 1):
-                        if 1 <= j <= M:
-                            interesting.add(j)
             interesting = sorted(interesting)
             rnd.shuffle(interesting)
             points = sorted(set(interesting[:8] + [rnd.randrange(1, M + 1) for _ in range(4)]))
@@ -217,7 +220,7 @@ def run(tier, replay):
         chk.cov["exhaustive"] = bool(exhaustive and tier == "thorough")
         chk.cov["rule"] = ("history of 3..6 builds, one build per process (crashmon child, ASan build), first build creates the schema, one build is cancelled; for each build the "
                            "database system calls are counted under strace, then the build is re-run from a byte copy of the pre-state and killed on entry to the N-th such call "
-                           "(quick: calls adjacent to fdatasync/unlink/lock transitions/journal open + random; thorough: every N); after each kill: sqlite integrity_check, I1 epoch >= "
+                           "(quick: calls adjacent to fdatasync/unlink/lock transitions/journal open + random; thorough: every N, or for builds with more than 400 such calls every transition point plus an even sample of 300); one case in four is a program of 90-160 keys whose builds store more than a hundred results in the one transaction; after each kill: sqlite integrity_check, I1 epoch >= "
                            "every result epoch, I2 fresh BuildDB reads every row and resolves every dependency id, I3 every (key,value,deps) row equals the pre-build row or an execution "
                            "logged (before complete()) by the killed run, I4 three continuation builds (interrupted build re-attempted with outputs already rewritten, then two more "
                            "mutate+build rounds) under M-value/M-justify/M-proto/M-db; distinct_nontrivial = runs in which the kill really fired (strace '+++ killed by SIGKILL')")
